@@ -539,11 +539,53 @@ class Graph:
                             allc = allc and a
                             got = True
                             self._fwd_calls.add(d[1])
+                if not got and n.term.get('args') and len(n.term['args']) == 2:
+                    # `a == Enum::Unit` / `a != Enum::Unit` on a payload-free enum (PartialEq::eq of the derive): known
+                    # when one side is a promoted unit-variant constant and the other side's variant origins are known
+                    m2 = re.search(r'cmp::PartialEq(<.*>)?>?::(eq|ne)$', n.term.get('resolved') or nm) or re.search(r'cmp::PartialEq(<.*>)?>?::(eq|ne)$', nm)
+                    if m2:
+                        sides = [self._ref_variant(n.inst, a_, fwd, depth + 1) for a_ in n.term['args']]
+                        cs = [s_ for s_ in sides if s_ and s_[0] == 'const']
+                        os_ = [s_ for s_ in sides if s_ and s_[0] == 'origins']
+                        if len(cs) == 1 and len(os_) == 1:
+                            c_ = cs[0][1]
+                            is_eq = m2.group(2) == 'eq'
+                            outs += [(on, '1' if ((str(v) == str(c_)) == is_eq) else '0') for (on, v) in os_[0][1]]
+                            got = True
+                            self._fwd_calls.add(d[1])
                 if not got:
                     allc = False
             else:
                 allc = False
         return outs, allc
+
+    def _ref_variant(self, iid, opd, fwd, depth):
+        """what a `&Enum` operand points at: ('const', discriminant) for a promoted unit-variant constant,
+        ('origins', [(node, discriminant)]) when the referenced place's variant origins are known, else None"""
+        if depth > 14 or opd['k'] not in ('copy', 'move') or opd['pl']['p']:
+            return None
+        ds = self.defs.get((iid, opd['pl']['l']))
+        if not ds or len(ds) != 1 or (iid, opd['pl']['l']) in self.pdefs:
+            return None
+        d = ds[0]
+        if d[0] == 'op':
+            return self._ref_variant(d[2], d[1], fwd, depth + 1) if d[1]['k'] in ('copy', 'move') else None
+        if d[0] != 'rv':
+            return None
+        rv = d[1]
+        if rv['k'] == 'use' and rv['op']['k'] == 'const':
+            return ('const', rv['op']['ref_v']) if rv['op'].get('ref_v') is not None else None
+        if rv['k'] == 'use' and rv['op']['k'] in ('copy', 'move'):
+            return self._ref_variant(iid, rv['op'], fwd, depth + 1)
+        if rv['k'] == 'ref' and not rv.get('mut'):
+            pl = rv['pl']
+            if pl['p'] and pl['p'][0] == '*' and len(pl['p']) == 1:
+                # `&*r`: the same referent as r
+                return self._ref_variant(iid, {'k': 'copy', 'pl': {'l': pl['l'], 'p': []}}, fwd, depth + 1)
+            o = self._resolve_variant(iid, pl['l'], list(pl['p']), fwd, depth + 1)
+            if o:
+                return ('origins', o)
+        return None
 
     def _resolve_variant(self, iid, l, projs, fwd, depth):
         """origins [(node, discr)] of the enum stored at place `local.projs` when the local is
